@@ -10,6 +10,7 @@
   pen, mode, tab stop, saved context or dirty flag — changes.
 -/
 import Avt.Lemmas.C05
+import Avt.Lemmas.C05OriginFrame
 
 namespace Avt
 open Avt.Spec Avt.Spec.C05 Avt.Lemmas.C05
@@ -302,6 +303,75 @@ example : TInv C05_example = true ∧ covered C05_example (.cuu 0) = true ∧ co
     ∧ (moveSpec C05_example (.cup 9 9)).cursor = { col := 8, row := 3 }    -- clamped within the region
     ∧ (moveSpec C05_example .ri).cursor = { col := 9, row := 3 }
     ∧ (moveSpec C05_example (.cbt 1)).cursor = { col := 8, row := 4 } := by
+  decide
+
+/-! ### origin mode is state: only DECSET / DECRST ?6, the restores and the resets change it -/
+
+/-- **Function level.**  A function for which `setsOrigin` is false — anything but DECSET / DECRST ?6,
+    DECRC / SCORC / DECRST ?1048 / ?1049 (origin mode is part of the saved context), DECSTR and RIS —
+    leaves origin mode exactly as it was: every terminal state, every geometry, no invariant needed.
+    In particular every cursor movement and placement, DECSTBM (which homes the cursor *according to*
+    origin mode but does not change it), every other mode, saving the cursor, entering the alternate
+    screen (?47h / ?1047h / ?1049h), leaving it with ?47l / ?1047l, and XTWINOPS. -/
+theorem C05_origin_persists {t t' : Terminal} {f : Function} (hf : setsOrigin f = false)
+    (h : t.execute f = some t') : t'.originMode = t.originMode :=
+  Avt.C05O.frame hf h
+
+/-- **Call level.**  If none of the functions the parser emits for the input (from the parser state
+    the call starts in) sets origin mode, then the fold of `execute` over them, `Vt.feedAll`,
+    `Vt::feed_str` (which ends with `changes()` + `gc()`) and per-character `Vt::feed` all leave origin
+    mode as it was.  This is the clause `origin-mode-persists` of the oracle (`Spec.C05.checkStep`). -/
+theorem C05_origin_persists_feed {v : Vt} {xs : List Nat}
+    (hf : ∀ f ∈ Frame.emitted v.parser xs, setsOrigin f = false) :
+    (∀ t', Terminal.foldM' Terminal.execute (Frame.emitted v.parser xs) v.terminal = some t' →
+        t'.originMode = v.terminal.originMode)
+    ∧ (∀ v', v.feedAll xs = some v' → v'.terminal.originMode = v.terminal.originMode)
+    ∧ (∀ v' ch, v.feedStr xs = some (v', ch) → v'.terminal.originMode = v.terminal.originMode)
+    ∧ (∀ c v', xs = [c] → v.feed c = some v' → v'.terminal.originMode = v.terminal.originMode) :=
+  ⟨fun _ h => Avt.C05O.frame_many hf h,
+   fun _ h => Avt.C05O.feedAll_om xs hf h,
+   fun _ _ h => Avt.C05O.feedStr_om hf h,
+   fun _ _ e h => Avt.C05O.feed_om (by rw [← e]; exact hf) h⟩
+
+/-- **Resize.**  `Vt::resize` (and `Terminal.resize`, which XTWINOPS performs) moves tab stops, resets
+    the margins on a height change and reflows; origin mode is as before — the oracle's clause
+    `resize-keeps-origin-mode`. -/
+theorem C05_origin_persists_resize {v v' : Vt} {ch : Changes} {cols rows : Nat}
+    (h : v.resize cols rows = some (v', ch)) : v'.terminal.originMode = v.terminal.originMode :=
+  Avt.C05O.vtResize_om h
+
+/-! the hypotheses are satisfiable: a 6x5 terminal gets region rows 1..3 (`CSI 2;4 r`) and origin mode
+    on (`CSI ?6 h`); then it saves the cursor and enters the alternate screen (`CSI ?1049 h`), sets
+    other margins (`CSI 1;2 r`), places the cursor (`CSI 9;9 H` — clamped within the region, because
+    origin mode is still on), leaves the alternate screen with `CSI ?1047 l`, and is resized (4x3, a
+    height change, which resets the region): none of the emitted functions sets origin mode, and it is
+    still on -/
+
+private def exSetup : List Nat := [0x1b, 0x5b, 0x32, 0x3b, 0x34, 0x72, 0x1b, 0x5b, 0x3f, 0x36, 0x68]
+
+private def exQuiet : List Nat :=
+  [0x1b, 0x5b, 0x3f, 0x31, 0x30, 0x34, 0x39, 0x68, 0x1b, 0x5b, 0x31, 0x3b, 0x32, 0x72,
+   0x1b, 0x5b, 0x39, 0x3b, 0x39, 0x48, 0x1b, 0x5b, 0x3f, 0x31, 0x30, 0x34, 0x37, 0x6c]
+
+private def exOrigin : Option (Vt × Vt × Vt) := do
+  let v ← Vt.new 6 5 none
+  let (v0, _) ← v.feedStr exSetup
+  let (v1, _) ← v0.feedStr exQuiet
+  let (v2, _) ← v1.resize 4 3
+  pure (v0, v1, v2)
+
+example : ∃ v0 v1 v2, exOrigin = some (v0, v1, v2)
+    ∧ (v0.terminal.originMode, v0.terminal.topMargin, v0.terminal.bottomMargin) = (true, 1, 3)
+    ∧ Frame.emitted v0.parser exQuiet
+        = [.decset [.saveCursorAltScreenBuffer], .decstbm 1 2, .cup 9 9, .decrst [.altScreenBuffer]]
+    ∧ (Frame.emitted v0.parser exQuiet).all (fun f => !setsOrigin f) = true
+    ∧ v1.terminal.activeBufferType = .primary
+    ∧ (v1.terminal.topMargin, v1.terminal.bottomMargin) = (0, 1)
+    ∧ v1.terminal.cursor = { col := 5, row := 1 }
+    ∧ v1.terminal.originMode = true
+    ∧ (v2.terminal.cols, v2.terminal.rows, v2.terminal.topMargin, v2.terminal.bottomMargin) = (4, 3, 0, 2)
+    ∧ v2.terminal.originMode = true := by
+  refine ⟨_, _, _, rfl, ?_⟩
   decide
 
 end Avt
